@@ -21,9 +21,9 @@ META = {
         "bban; distinct = distinct ordered pairs resp. (object, copy method) judged"
     ),
     "assumptions": ["only comparisons among the three classes and str are judged"],
-    "min_distinct": {"quick": 20000, "thorough": 1000000},
+    "min_distinct": {"quick": 20000, "thorough": 500000},
 }
-SIZES = {"quick": dict(pool=130, shards=4), "thorough": dict(pool=420, shards=16)}
+SIZES = {"quick": dict(pool=150, shards=8), "thorough": dict(pool=1100, shards=16)}
 OPS = [("==", lambda a, b: a == b), ("!=", lambda a, b: a != b), ("<", lambda a, b: a < b), ("<=", lambda a, b: a <= b), (">", lambda a, b: a > b), (">=", lambda a, b: a >= b)]
 COMPONENTS = data.COMPONENTS
 
